@@ -55,15 +55,15 @@ func plans(id, tier string) (*Plan, bool) {
 func init() {
 	planTable["C03"] = func(q bool) *Plan {
 		p := &Plan{Level: "model_checking", Engine: "E-sched",
-			Text:      "Every interleaving (up to the stated preemption bound, at the hooked points of the commit pipeline) of concurrent Commit / CommitWith / NewTransaction on the real DB is executed and checked: distinct commit timestamps consistent with real-time order, all-or-nothing visibility per reader, acknowledged commits visible to later readers, failed commits invisible.",
+			Text:      "Every interleaving (up to the stated preemption bound, at the hooked points of the commit pipeline) of concurrent Commit / CommitWith / NewTransaction on the real DB is executed and checked: distinct commit timestamps consistent with real-time order, all-or-nothing visibility per reader, acknowledged commits visible to later readers, failed commits invisible. Two committers racing DB.Close: after re-opening, a commit that returned nil is completely present and a commit that was rejected (writes blocked / database closed) left no trace.",
 			Note:      "Interleavings are explored at the granularity of the enabled hook points under sequential consistency; small harness (2-3 committers, 2 readers, 3 keys).",
 			Technique: "stateless model checking of the real commit pipeline (controlled scheduler, preemption-bounded DFS)",
 			Rule:      "every schedule of the harness threads over the enabled points with at most <bound> preemptions; distinct = distinct (commit-ts assignment, reader read-ts) outcomes"}
 		if q {
-			p.Stages = []Stage{sched("c03a", 0, 1, 20, nil), sched("c03a", 1, 16, 25, nil), sched("c03a", 2, 16, 30, nil), sched("c03a", 3, 16, 30, nil), sched("c01flush", 2, 16, 20, prm("variant", "flush")),
+			p.Stages = []Stage{sched("c03a", 0, 1, 20, nil), sched("c03a", 1, 16, 25, nil), sched("c03a", 2, 16, 30, nil), sched("c03a", 3, 16, 30, nil), sched("c03close", 2, 16, 40, nil), sched("c01flush", 2, 16, 20, prm("variant", "flush")),
 				bfs("lsm", 5, 40, prm("oracle", "c12", "mode", "normal", "keys", 2, "multi", true, "l0_tables", 1, "ops", "P Sa Da F C0 C1 O X"))}
 		} else {
-			p.Stages = []Stage{sched("c03a", 0, 1, 30, nil), sched("c03a", 1, 16, 60, nil), sched("c03a", 2, 16, 300, nil), sched("c03a", 3, 16, 300, nil),
+			p.Stages = []Stage{sched("c03a", 0, 1, 30, nil), sched("c03a", 1, 16, 60, nil), sched("c03a", 2, 16, 300, nil), sched("c03a", 3, 16, 300, nil), sched("c03close", 3, 16, 600, nil),
 				bfs("lsm", 7, 600, prm("oracle", "c12", "mode", "normal", "keys", 2, "multi", true, "l0_tables", 1, "ops", "P Sa Da F C0 C1 O X"))}
 		}
 		return p
@@ -347,7 +347,7 @@ func init() {
 			Technique: "stateless model checking with a virtual-time horizon (controlled scheduler, preemption-bounded DFS)",
 			Rule:      "8 scenarios x schedules up to the bound; outcome = returned / deadlock"}
 		if q {
-			p.Stages = []Stage{sched("c38", 0, 8, 40, prm("cases", 8)), sched("c38sw", 2, 2, 30, prm("cases", 2)), sched("c38", 1, 8, 45, prm("cases", 8))}
+			p.Stages = []Stage{sched("c38", 0, 8, 40, prm("cases", 8)), sched("c38sw", 2, 2, 30, prm("cases", 2)), sched("c03close", 1, 16, 30, nil), sched("c38", 1, 8, 45, prm("cases", 8))}
 		} else {
 			p.Stages = []Stage{sched("c38", 1, 8, 600, prm("cases", 8)), sched("c38sw", 3, 2, 300, prm("cases", 2)), sched("c38", 2, 8, 1800, prm("cases", 8))}
 		}
